@@ -18,10 +18,11 @@ TECHNIQUE = ("exhaustive enumeration of registration histories (sequences of spe
              "class layouts) through the real SpecSet metaclass, each evaluated under every active context against a reference resolution rule")
 LEVEL_TEXT = ("All registration sequences of <= 3 (quick) / <= 4 (thorough) implementations of a registry point - bound to context A, B, "
               "at-least-one [A,B] or transitively through a helper datasource; function datasources and simple_file objects over real "
-              "present/missing files; outcomes value / skip / content error / crash - in three class layouts (siblings, deeper subclass, two "
-              "registry points) are registered with the real metaclass and evaluated under each active context. The value of the point, the "
+              "present/missing files; outcomes value / falsy value 0 / skip / content error / crash - in four class layouts (siblings, deeper subclass, two "
+              "registry points, a LAYERED spec set that re-declares the point with implementations registered against either level) are registered with the real metaclass and evaluated under each active context. The value of the point, the "
               "set of implementation bodies executed, the value a consuming parser receives and the propagated flags are compared with the "
-              "reference rule 'last registered implementation whose context set contains the active context, or nothing'.")
+              "reference rule 'last registered implementation whose context set contains the active context, or nothing' - after the whole "
+              "history and, in one process on the same objects, after every registration prefix.")
 LEVEL_NOTE = ("Histories are enumerated completely up to L; the state after each history is the real dr/SpecSet registry state. Context-free "
               "implementations are outside the alphabet (the statement speaks of implementations declared for a context).")
 RULE = ("sequence of implementations (binding x outcome) x layout x active context; non-trivial = at least two implementations are declared "
@@ -55,14 +56,15 @@ def units(tier, seed):
                         us.append({"layout": layout, "n": n, "first": first, "second": second})
                 else:
                     us.append({"layout": layout, "n": n, "first": first})
-    if tier == "quick":
-        # merge small units to keep the unit count reasonable
-        pass
+    # layered spec sets: small alphabet (A / B / AB x value / skip) x the level each implementation is registered against
+    for n in range(1, 4):
+        for layer_at in range(0, min(n, 2)):
+            us.append({"layout": "layered", "n": n, "layer_at": layer_at})
     return us
 
 
 def unit_weight(u):
-    return u["n"]
+    return u["n"] + (2 if u["layout"] == "layered" else 0)
 
 
 def ctx_set(binding):
@@ -119,6 +121,7 @@ def check_case(case):
 
             impl_objs = []
             wired = []
+            layer = []
             parent = Base
 
             def register(k):
@@ -184,7 +187,18 @@ def check_case(case):
                         ods = datasource(CTX[active])(obody)
                         created.append(ods)
                         dct["other"] = ods
-                    cls = SpecSetMeta("%s_Impl%d" % (tag, k), (Base,), dct)
+                    parent_cls = Base
+                    if layout == "layered":
+                        # a spec set that re-declares the registry point under the same name (the re-declared point is
+                        # itself wired onto the parent's point); implementations are registered against either level
+                        if k == case.get("layer_at", 0) and not layer:
+                            lp = RegistryPoint(**flags)
+                            created.append(lp)
+                            layer.append(SpecSetMeta(tag + "_Layer", (Base,), {"point": lp, "__module__": G.MODNAME}))
+                            classes.append(layer[0])
+                        if case["levels"][k] == "layer" and layer:
+                            parent_cls = layer[0]
+                    cls = SpecSetMeta("%s_Impl%d" % (tag, k), (parent_cls,), dct)
                     wired.append(True)
                 classes.append(cls)
 
@@ -299,8 +313,44 @@ def check_case(case):
                     s.difference_update(created)
 
 
+LAYERED_ALPHA = [(b, o) for b in ("A", "B", "AB") for o in ("value", "skip")]
+
+
+def run_layered(unit, res):
+    n = unit["n"]
+    for impls in itertools.product(LAYERED_ALPHA, repeat=n):
+        for levels in itertools.product(("base", "layer"), repeat=n):
+            if "layer" not in levels or any(lv == "layer" and k < unit["layer_at"] for k, lv in enumerate(levels)):
+                continue                      # an implementation cannot be registered against a level that does not exist yet
+            for active, steps in itertools.product(("A", "B"), ("final", "every-prefix")):
+                if steps == "every-prefix" and n < 2:
+                    continue
+                case = {"impls": [list(x) for x in impls], "layout": "layered", "active": active, "levels": list(levels),
+                        "layer_at": unit["layer_at"]}
+                if steps == "every-prefix":
+                    case["steps"] = steps
+                try:
+                    vio = check_case(case)
+                except Exception:
+                    import traceback
+                    vio = [("harness:raises", "no exception", traceback.format_exc()[-900:], {})]
+                declared = sum(1 for (b, o) in impls if active in ctx_set(b))
+                oc = case.pop("_outcome", "?")
+                res.case(nontrivial=declared >= 2 and len(set(levels)) == 2,
+                         outcome="layered|" + (",".join(sorted(set(v[0] for v in vio))) or "ok") + "|" + oc,
+                         sample=case if res.evals % 900 == 5 else None)
+                res.transitions += n
+                res.traces += 1
+                for v in vio:
+                    res.violation(v[0], case, v[1], v[2], v[3])
+    res.maxi("max_history_length", n)
+    return res
+
+
 def run_unit(unit, tier):
     res = Result()
+    if unit["layout"] == "layered":
+        return run_layered(unit, res)
     alpha = impl_alphabet()
     n = unit["n"]
     fixed = [alpha[unit["first"]]]
